@@ -212,7 +212,11 @@ func CheckC20(s *Src, o *vh.Out) string {
 	}
 	out2, err := FormatSrc(&Src{Name: s.Name, Class: s.Class, Text: out})
 	if err != nil {
-		o.Oracle(errKey("format2", err), s.Line, firstLine(err.Error()))
+		key := errKey("format2", err)
+		if intBeforeEllipsis.MatchString(out) && !intBeforeEllipsis.MatchString(s.Text) {
+			key += ":int-literal-before-ellipsis"
+		}
+		o.Oracle(key, s.Line, firstLine(err.Error()))
 		return "FORMAT2-FAILS " + firstLine(err.Error())
 	}
 	if out2 != out {
